@@ -5,7 +5,7 @@ import re
 import subprocess
 import time
 
-from . import gen_tables
+from . import gen_skeleton, gen_tables
 from .util import LEAN_DIR
 
 ALLOWED_AXIOMS = {"propext", "Classical.choice", "Quot.sound"}
@@ -90,6 +90,7 @@ def build(targets):
         fcntl.flock(lk, fcntl.LOCK_EX)
         try:
             gen_tables.regenerate()
+            gen_skeleton.regenerate()
         except Exception as e:  # TablesError or unexpected AST shapes
             res.tables_error = f"{type(e).__name__}: {e}"
             res.ok = False
